@@ -390,6 +390,55 @@ def run_spin(ctx):
     ctx.coverage.setdefault("distribution", {})["spin"] = res
 
 
+def driver_edge_case():
+    """unusual but legal requests to the bus driver's less-travelled interfaces (Properties with an empty or foreign interface name, unknown
+    and empty property names, Set on read-only properties): every one is answered - with a reply or an error -, the bus lives on and a
+    bystander is served. (What the answers say is not modelled: the Properties interface is among the driver methods whose replies are opaque.)"""
+    from ..bus import method_call, BUS, BUS_PATH
+    PROPS = "org.freedesktop.DBus.Properties"
+    d = bus.Daemon()
+    try:
+        c = bus.Client(d); bus.hello(c)
+        o = bus.Client(d); bus.hello(o)
+        asked, unanswered = 0, []
+        for iface in (b"", b"org.freedesktop.DBus", b"org.freedesktop.DBus.Monitoring", b"org.example.Nope", b"org.freedesktop.DBus.Properties"):
+            reqs = [("Get", "ss", [iface, p]) for p in (b"Features", b"Interfaces", b"Nope", b"")] + [("GetAll", "s", [iface]),
+                    ("Set", "ssv", [iface, b"Nope", (('b', 's'), b"v")]), ("Set", "ssv", [iface, b"Features", (('b', 'u'), 1)])]
+            for member, sig, body in reqs:
+                asked += 1
+                r, _ = bus.bus_call(c, member, sig, body, timeout=5.0, iface=PROPS)
+                if r is None:
+                    unanswered.append("%s(%s)" % (member, ", ".join(repr(x) for x in body[:2])))
+                    if not d.alive():
+                        break
+            if not d.alive():
+                break
+        r, _ = bus.bus_call(o, "GetId", timeout=10.0) if d.alive() else (None, None)
+        # libdbus' own argument checks ("arguments to dbus_set_error() were incorrect, assertion ... failed") abort the process unless
+        # DBUS_FATAL_WARNINGS=0, as it is for the daemons the harness starts: a tripped check is an assertion failure all the same
+        err = d.stderr()
+        tripped = [l for l in err.splitlines() if "assertion" in l and "failed" in l or "were incorrect" in l]
+        return {"asked": asked, "unanswered": unanswered[:5], "bystander_served": r is not None and r.mtype == 2, "alive": d.alive(),
+                "checks_tripped": tripped[:3], "stderr": "" if d.alive() else err[-500:]}
+    finally:
+        d.stop()
+
+
+def run_driver_edge(ctx):
+    try:
+        r = driver_edge_case()
+    except (OSError, InfraError) as e:
+        raise InfraError("driver-edge scenario failed: %r" % (e,))
+    ok = r["alive"] and r["bystander_served"] and not r["unanswered"] and not r["checks_tripped"]
+    if not ok:
+        ctx.violate("a legal request to the bus driver's Properties interface %s: unanswered %s, bystander served: %s %s %s" %
+                    ("kills the bus" if not r["alive"] else "trips a libdbus check (fatal by default)" if r["checks_tripped"] else "is not answered",
+                     r["unanswered"], r["bystander_served"], r["checks_tripped"][:1], r["stderr"][-200:]),
+                    {"kind": "driver-edge", "observed": r}, True)
+    ctx.oblige("scenario: %d unusual but legal Properties requests to the driver are all answered, the bus lives on" % r["asked"], "correspondence", ok)
+    ctx.coverage.setdefault("distribution", {})["driver_edge"] = r
+
+
 def stalled_scripts():
     """a subscriber that stops reading: once its queue is over max_outgoing_bytes the bus queues nothing more for it - broadcast copies
     included -, keeps serving everybody else, and hands it exactly what was queued before when it reads again"""
@@ -419,6 +468,7 @@ def run(ctx):
     for i, (label, kw, limits) in enumerate(PROFILES):
         good = buscheck.run_histories(ctx, nh, nops, oracle, gen_kw=kw, limits=limits, seed_salt=100 + i, label=label)
     buscheck.run_histories(ctx, 0, 0, oracle, limits={"outgoing": 20000}, seed_salt=98, label="stalled-subscriber-scenarios", scripts=stalled_scripts())
+    run_driver_edge(ctx)
     run_acceptor(ctx)
     run_spin(ctx)
     ctx.coverage["rule"] = ("histories of ordinary bus traffic interleaved with hostile clients: mutated messages (fields dropped/duplicated/retyped/unknown/invalid, "
@@ -437,6 +487,10 @@ def replay(path):
     rp = data["replay"]
     if rp.get("kind") == "bus-history":
         rc = buscheck.replay_history(path, oracle, "C10")
+    elif rp.get("kind") == "driver-edge":
+        r = driver_edge_case()
+        print("replay C10: %s" % r)
+        return 0 if (r["alive"] and r["bystander_served"] and not r["unanswered"] and not r["checks_tripped"]) else 1
     elif rp.get("kind") == "spin":
         r = spin_case(rp["case"])
         bad = r["cpu_during_quiet_second"] > 0.3 * r["wall"] or not r["bystander_served"] or not r["alive"]
